@@ -494,7 +494,7 @@ def resolver_reports(c):
         if not p.calls('cfg_error'):
             return 'cfg_getopt_secidx() can return "not found" with the flag off without a diagnostic (%s)' % ' && '.join(conds[-4:])
     if n == 0:
-        return 'no flag-off not-found path found in the resolver'
+        raise sym.AnalysisIncomplete('no flag-off not-found path found in the resolver')
     return True
 
 
